@@ -10,3 +10,8 @@ claim("C16", "enumeration of all SMTP error literals and field maps with abstrac
       "Decides, for every SMTPError / smtp_code literal and helper in the current tree (a finite, fully enumerated set: the property quantifies over 'all SMTP error literals and helper-computed codes in the source tree'), that basic and enhanced code classes agree on every acyclic path of the enclosing function; that SMTPCode/SMTPEnchCode follow the temporariness predicate; that the converters' default pairs agree with the predicate that drives retry; that every Fields(err)[K].(T) reader has a writer of type T; that err.Error() never reaches the reply text; and that the non-SMTPUTF8 mask starts at U+0080. Not decided: run-time composition of fields from different wrappers.",
       "trusts go/types, go/cfg, go/ssa; A1 (go-smtp derives class.0.0 from EnhancedCodeNotSet)", "DESIGN.md §3 C16")
 PENDING.pop("C16", None)
+
+claim("C02", "must-pass-through / ordering queries over go/cfg paths of the queue's storage functions (sync-before-ack, write-new→sync→rename, recovery keyed on the commit record, persist-before-reschedule, report-before-forget), file roles resolved from constant path suffixes",
+      "Decides the order of durable effects on every control-flow path (with repeated conditions correlated) of storeNewMessage, updateMetadataOnDisk, readDiskQueue, tryDelivery, queueDelivery.Body/Abort, removeFromDisk: a necessary condition of every clause of the crash property. It does not enumerate crash points or execute recovery.",
+      "trusts go/types, go/cfg; A2 (Sync/Rename/Create/Remove/Encode do what they document)", "DESIGN.md §3 C02")
+PENDING.pop("C02", None)
